@@ -41,6 +41,11 @@ func oracleAppend(st *ast.AssignStmt) *ast.CallExpr {
 	if src(st.Lhs[0]) == src(call.Args[0]) {
 		return nil
 	}
+	if _, isSel := st.Lhs[0].(*ast.SelectorExpr); isSel {
+		if _, isLit := call.Args[0].(*ast.CompositeLit); isLit {
+			return nil // c.Edits = append([]Edit{...}, c.Edits...): a prepend to an owned field
+		}
+	}
 	return call
 }
 
@@ -347,6 +352,10 @@ func (c *fnCtx) function() {
 		return true
 	})
 
+	for _, f := range c.rangedPtrFields(c.body, isRecvIdent, recvType) {
+		sc.fieldsUsed[f], sc.fieldsMut[f] = true, true // changed through the range variable
+	}
+
 	// ---- variables of the signature
 	for _, f := range fieldNames {
 		if fn.ctor != nil {
@@ -361,7 +370,13 @@ func (c *fnCtx) function() {
 		if o := c.objs[f]; o != nil {
 			ft = o.typ
 		} else {
-			ft = c.goType(fieldTypes[f])
+			if c.g.distinct[recvType+"."+f] {
+				if ft = c.distinctPtrList(fieldTypes[f]); ft == nil {
+					c.lostAt(fd, "field %s declared distinct: but not of a type []*S", f)
+				}
+			} else {
+				ft = c.goType(fieldTypes[f])
+			}
 			if _, lit := fieldTypes[f].(*ast.MapType); lit && ft.k == "map" {
 				u := *ft
 				u.nilable = false // a map field of the receiver is taken to be allocated
@@ -369,6 +384,7 @@ func (c *fnCtx) function() {
 			}
 		}
 		v := c.newVar(fn.recvVar+"_"+f, ft, "field")
+		v.distinctPtr = c.g.distinct[recvType+"."+f]
 		c.fields[f] = v
 		if fn.fatFields[f] {
 			c.fat[v] = c.newVar(fn.recvVar+"_"+f+"_spare", ft, "field")
@@ -1068,6 +1084,10 @@ func (c *fnCtx) effects(nodes ...ast.Node) effSet {
 			case *ast.AssignStmt:
 				for _, l := range v.Lhs {
 					wr(c.rootVar(l))
+					if x := c.rootVar(l); x != nil && x.aliasOf != nil {
+						// a store through the range variable of a list of distinct pointers
+						es.r[x.aliasOf], es.w[x.aliasOf], es.r[x.aliasIdx] = true, true, true
+					}
 					// a field with a tracked capacity assigned as a whole: its spare part changes too
 					if x := c.plainVar(l); x != nil && x.role == "field" && c.fat[x] != nil {
 						es.r[c.fat[x]], es.w[c.fat[x]] = true, true
@@ -1075,6 +1095,9 @@ func (c *fnCtx) effects(nodes ...ast.Node) effSet {
 				}
 			case *ast.IncDecStmt:
 				wr(c.rootVar(v.X))
+				if x := c.rootVar(v.X); x != nil && x.aliasOf != nil {
+					es.r[x.aliasOf], es.w[x.aliasOf], es.r[x.aliasIdx] = true, true, true
+				}
 			case *ast.ValueSpec:
 				if v.Type != nil && len(v.Values) == 0 && c.zero != nil {
 					for _, z := range zeroNeeds(c.goType(v.Type)) {
@@ -1377,6 +1400,9 @@ func (c *fnCtx) expr(e ast.Expr, pre *[]fnBind) (string, *fnType) {
 			if n, ok := mathConsts[v.Sel.Name]; ok {
 				return n, tyUntyped
 			}
+		}
+		if s, t := c.foreignConst(v, pre); t != nil {
+			return s, t
 		}
 		if s, t := c.structSelect(v, pre); t != nil {
 			return s, t
